@@ -315,9 +315,10 @@ class PusTm(AbstractPusTm):
             data=data[SPACE_PACKET_HEADER_SIZE:],
             timestamp_len=timestamp_len,
         )
+        # The declared packet must hold the secondary header with the full timestamp and the CRC16.
         if (
             expected_packet_len
-            < pus_tm.pus_tm_sec_header.header_size + SPACE_PACKET_HEADER_SIZE
+            < SPACE_PACKET_HEADER_SIZE + PusTmSecondaryHeader.MIN_LEN + timestamp_len + 2
         ):
             raise ValueError("passed packet too short")
         pus_tm._source_data = data[
